@@ -120,7 +120,9 @@ func runInstance(i int, in checks.Instance, dl time.Time) (r vp.InstResult) {
 		return
 	}
 	for b := 0; b <= in.Bound; b++ {
-		e := &mc.Explorer{Bound: b, Root: in.Root, MaxSteps: in.MaxSteps, Deadline: dl, UseCache: !in.NoCache}
+		// Fingerprint pruning is exact for data-race-free code only; an instance may ask for its lower bounds
+		// to be explored without it (PruneFrom).
+		e := &mc.Explorer{Bound: b, Root: in.Root, MaxSteps: in.MaxSteps, Deadline: dl, UseCache: !in.NoCache && b >= in.PruneFrom}
 		if rlog != nil {
 			e.End = func(s *mc.Sched) {
 				for _, rep := range rlog.collect() {
